@@ -35,5 +35,6 @@ void abtmc_stack_init(void *p_stacktop, size_t stacksize);
 #define ABTI_VERIF_SITE_KTABLE_LOCK 5
 #define ABTI_VERIF_SITE_XSTREAM_BARRIER 6
 #define ABTI_VERIF_SITE_SCHED_EVENTS 7
+#define ABTI_VERIF_SITE_WAITLIST_ACTIVE 8
 
 #endif /* ABTI_VERIF_H_INCLUDED */
